@@ -365,3 +365,111 @@ func firstDiff(a, b string) int {
 	}
 	return len(b)
 }
+
+// ---------- C12: the text of a type's functions does not depend on what else is selected ----------
+
+type TextSel struct {
+	Name  string
+	Build func() (file *d.FileDescriptorProto, extra []*d.FileDescriptorProto, cfg *Config)
+	Type  string   // the type whose three functions are compared
+	With  []string // types selected next to it in the second run
+}
+
+func progSel(prog, typ string, with ...string) TextSel {
+	return TextSel{Name: "T-" + prog + "-" + typ + "+" + strings.Join(with, "+"), Type: typ, With: with,
+		Build: func() (*d.FileDescriptorProto, []*d.FileDescriptorProto, *Config) {
+			b := findProgram(prog)
+			return b.File().build(), nil, b.Cfg()
+		}}
+}
+
+// importSel: the selected type inlines a message of a dependency file (own comments there), and another
+// type of the generated file sits at the same message / field index as that message in its own file.
+func importSel() TextSel {
+	return TextSel{Name: "T-import-Server+Audit", Type: "Server", With: []string{"Audit"},
+		Build: func() (*d.FileDescriptorProto, []*d.FileDescriptorProto, *Config) {
+			dep := (&FileSpec{Name: "q/dep.proto", Msgs: []*M{
+				msg("Meta", nil, fld("Name", TString).doc(" Name of the resource.\n"), fld("Labels", TString).rep().doc(" Labels of the resource.\n")).doc(" Meta is imported\n")}}).build()
+			dep.Package = S("q")
+			dep.Options.GoPackage = S("example.com/q")
+			f := (&FileSpec{Name: "p.proto", Msgs: []*M{
+				msg("Audit", nil, fld("User", TString).doc(" User that made the change.\n"), fld("Actions", TString).rep().doc(" Actions taken.\n")).doc(" Audit is local\n"),
+				msg("Server", nil, fld("Addr", TString).doc(" Address.\n"), fld("Meta", TMessage).tn(".q.Meta").doc(" Metadata.\n"))}}).build()
+			f.Dependency = append(f.Dependency, "q/dep.proto")
+			return f, []*d.FileDescriptorProto{dep}, baseConfig()
+		}}
+}
+
+func textSels() []TextSel {
+	return []TextSel{progSel("P-multi", "A", "B"), progSel("P-multi", "B", "A", "Shared"), progSel("P-order", "Leaf", "Top", "Mid"), progSel("P-order", "Mid", "Top"),
+		progSel("P-nest", "N1", "N2", "Inner"), progSel("P-docs", "Doc", "DE1"), progSel("P-flags", "Fl", "FlSub"), progSel("P-oneof", "O2", "O1"), importSel()}
+}
+
+// funcTexts returns the source text (doc comment included) of the given top-level functions.
+func funcTexts(src string, names []string) (map[string]string, error) {
+	fset := token.NewFileSet()
+	f, err := parser.ParseFile(fset, "gen.go", src, parser.ParseComments)
+	if err != nil {
+		return nil, err
+	}
+	out := map[string]string{}
+	for _, dcl := range f.Decls {
+		fd, ok := dcl.(*ast.FuncDecl)
+		if !ok || fd.Recv != nil || !inList(names, fd.Name.Name) {
+			continue
+		}
+		start := fd.Pos()
+		if fd.Doc != nil {
+			start = fd.Doc.Pos()
+		}
+		out[fd.Name.Name] = src[fset.Position(start).Offset:fset.Position(fd.End()).Offset]
+	}
+	return out, nil
+}
+
+func observeTextIndependence(pluginBin, out string) []*Observation {
+	var res []*Observation
+	for _, ts := range textSels() {
+		o := &Observation{Name: ts.Name, Mode: "text"}
+		res = append(res, o)
+		file, extra, cfg := ts.Build()
+		names := []string{"GenSchema" + ts.Type, "Copy" + ts.Type + "FromTerraform", "Copy" + ts.Type + "ToTerraform"}
+		var texts []map[string]string
+		for run, types := range [][]string{{ts.Type}, append(append([]string{}, ts.With...), ts.Type)} {
+			c := cfg.clone()
+			c.Types = types
+			dir := filepath.Join(out, ts.Name, fmt.Sprint(run))
+			cfgPath := filepath.Join(dir, "cfg.yaml")
+			writeFile(cfgPath, c.yaml())
+			req := buildRequest(file, "config="+cfgPath, extra...)
+			if run == 1 {
+				o.Request = filepath.Join(dir, "req.bin")
+				writeFile(o.Request, req)
+			}
+			resp, err := runPlugin(pluginBin, req, filepath.Join(dir, "plugin.log"))
+			if err != nil || len(resp.File) != 1 {
+				o.Failures = append(o.Failures, fmt.Sprintf("types=%v: plugin failed: %v", types, err))
+				break
+			}
+			t, err := funcTexts(resp.File[0].GetContent(), names)
+			if err != nil {
+				o.Failures = append(o.Failures, fmt.Sprintf("types=%v: generated file does not parse: %v", types, err))
+				break
+			}
+			texts = append(texts, t)
+		}
+		if len(texts) == 2 {
+			for _, n := range names {
+				a, okA := texts[0][n]
+				b, okB := texts[1][n]
+				switch {
+				case !okA || !okB:
+					o.Failures = append(o.Failures, fmt.Sprintf("%s is missing (alone: %v, with %v: %v)", n, okA, ts.With, okB))
+				case a != b:
+					o.Failures = append(o.Failures, fmt.Sprintf("the text of %s differs when %v are selected as well (first difference at byte %d of the function)", n, ts.With, firstDiff(a, b)))
+				}
+			}
+		}
+	}
+	return res
+}
